@@ -256,6 +256,11 @@ def run(rep, db, tier, seed):
     absurd_messages(rep, db, tier)
     from props import c10_frames
     c10_frames.run(rep, db, tier)
+    try:
+        from props import c10_frameio
+        c10_frameio.run(rep, db, 'thorough')      # every instantiation (a few paths each)
+    except Exception as u:
+        rep.add(Obligation('length-prefixed frame bound', 'inconclusive', f'{type(u).__name__}: {u}'[:600]))
     from props import kani_part
     kani_part.run(rep, PROP, tier)
     # verification entry points reachable with decoded, not yet authenticated data must be total as well (decided in C04's harnesses)
